@@ -221,7 +221,7 @@ def c_case(c, ctx):
     ctx.expect(dd is None, "structure_changed", lambda: repr(dd))
 
     # nothing mutated, nothing shared
-    dd = digest.digest_diff(d_shape, digest.digest(shape))
+    dd = digest.parameter_mutation(d_shape, digest.digest(shape))
     ctx.expect(dd is None, "input_shape_mutated", lambda: repr(dd))
     dd = digest.parameter_mutation(d_t, digest.digest(t, skip=_CACHE))
     ctx.expect(dd is None, "transform_mutated", lambda: repr(dd))
